@@ -19,6 +19,8 @@ fn c19(case: &Sexp) -> Sexp {
     match case.at(0).num() {
         1 => sc_await::run(case, false),
         10 => sc_await::run(case, true),
+        31 => sc_await::run_opts(case, false, true),
+        32 => sc_audit::run_memo_chain(case),
         11 => sc_memolock::run(case),
         13 => sc_memolock::run_immediate(case),
         15 => sc_guard::run_one_thread(case),
